@@ -23,9 +23,13 @@ structure Env where
   isEmoji : Nat → Bool       -- StringUtility.is_emoji on one code point
   isSpace : Nat → Bool       -- str.isspace (for str.strip)
   lower : Str → Str          -- str.lower
+  /-- `true`: the span start is the regex match's own offset (code after the `first-occurrence-span` fix);
+      `false`: `trimmed_source.index(match)`, the first textual occurrence (code before it) -/
+  useMatchOffset : Bool
 
 /-! ### `remove_unicode_matches` on the pattern text
-`re.sub('\\\\u.{4}[\\|\\\\]', '', pattern)` then `re.sub('\\\\u', '\\\\U', …)`. -/
+PRE-FIX code (kept for the regression theorems): `re.sub('\\\\u.{4}[\\|\\\\]', '', pattern)` then
+`re.sub('\\\\u', '\\\\U', …)`. -/
 
 /-- first pass: delete every `\uXXXX` that is followed by `|` or `\` (together with that character); `.` does not
 match a newline. Leftmost, non-overlapping, scanning resumes after the deleted text. -/
@@ -45,7 +49,57 @@ def upperU : Str → Str
   | x :: rest => x :: upperU rest
   | [] => []
 
-def removeUnicodeMatches (pattern : Str) : Str := upperU (stripU (pattern.length + 1) pattern)
+def removeUnicodeMatchesPreFix (pattern : Str) : Str := upperU (stripU (pattern.length + 1) pattern)
+
+/-! CURRENT code (after the `emoji-unreachable` fix):
+`re.sub('\\u([dD][89abAB][0-9a-fA-F]{2})\\u([dD][c-fC-F][0-9a-fA-F]{2})', pair -> '\\U%08X', pattern)` then
+`re.sub('\\u(000[0-9a-fA-F]{5})', '\\U\\1', …)`. -/
+
+def hexVal? (c : Nat) : Option Nat :=
+  if 48 ≤ c ∧ c ≤ 57 then some (c - 48) else if 97 ≤ c ∧ c ≤ 102 then some (c - 87)
+  else if 65 ≤ c ∧ c ≤ 70 then some (c - 55) else none
+
+def hexDigitUpper (v : Nat) : Nat := if v < 10 then 48 + v else 55 + v
+
+/-- `'%08X' % n` -/
+def hex8 (n : Nat) : Str :=
+  [28, 24, 20, 16, 12, 8, 4, 0].map fun sh => hexDigitUpper ((n >>> sh) % 16)
+
+/-- four hex digits `a b c d` → value, provided `a` is `d/D`, `b` is in `lo` (values) -/
+def surrogate? (a b c d : Nat) (bLo bHi : Nat) : Option Nat := do
+  let va ← hexVal? a
+  let vb ← hexVal? b
+  let vc ← hexVal? c
+  let vd ← hexVal? d
+  if va = 13 ∧ bLo ≤ vb ∧ vb ≤ bHi then some (va * 4096 + vb * 256 + vc * 16 + vd) else none
+
+/-- first pass: `\uD8xx–\uDBxx` followed by `\uDCxx–\uDFxx` becomes `\U` + 8 hex digits of the code point -/
+def joinPairs : Nat → Str → Str
+  | 0, s => s
+  | fuel + 1, s =>
+    match s with
+    | [] => []
+    | 92 :: 117 :: a :: b :: c :: d :: 92 :: 117 :: e :: f :: g :: h :: rest =>
+      match surrogate? a b c d 8 11, surrogate? e f g h 12 15 with
+      | some hi, some lo => 92 :: 85 :: (hex8 (0x10000 + ((hi - 0xD800) <<< 10) + (lo - 0xDC00)) ++ joinPairs fuel rest)
+      | _, _ => 92 :: joinPairs fuel (117 :: a :: b :: c :: d :: 92 :: 117 :: e :: f :: g :: h :: rest)
+    | x :: rest => x :: joinPairs fuel rest
+
+/-- second pass: `\u000` + five hex digits becomes `\U000` + the same digits -/
+def widen : Nat → Str → Str
+  | 0, s => s
+  | fuel + 1, s =>
+    match s with
+    | [] => []
+    | 92 :: 117 :: 48 :: 48 :: 48 :: a :: b :: c :: d :: e :: rest =>
+      if (hexVal? a).isSome ∧ (hexVal? b).isSome ∧ (hexVal? c).isSome ∧ (hexVal? d).isSome ∧ (hexVal? e).isSome then
+        92 :: 85 :: 48 :: 48 :: 48 :: a :: b :: c :: d :: e :: widen fuel rest
+      else 92 :: widen fuel (117 :: 48 :: 48 :: 48 :: a :: b :: c :: d :: e :: rest)
+    | x :: rest => x :: widen fuel rest
+
+def removeUnicodeMatches (pattern : Str) : Str :=
+  let p := joinPairs (pattern.length + 1) pattern
+  widen (p.length + 1) p
 
 /-! ### tokenizer -/
 
@@ -123,8 +177,8 @@ structure ER where
 deriving Repr, DecidableEq, Inhabited
 
 /-- `RegExpUtility.get_matches`: lower-cased non-empty matched texts -/
-def getMatches (E : Env) (re : RE) (s : Str) : List Str :=
-  ((findAll E.T s.toArray re).map fun (a, b) => E.lower (sliceI s a b)).filter (· ≠ [])
+def getMatches (E : Env) (re : RE) (s : Str) : List (Nat × Str) :=
+  ((findAll E.T s.toArray re).map fun (a, b) => (a, E.lower (sliceI s a b))).filter (·.2 ≠ [])
 
 /-- `top_score = max(top_score, score)` over every start position; `none` = an exception inside -/
 def topScore (source match_ : List Str) : Option Score :=
@@ -134,7 +188,8 @@ def topScore (source match_ : List Str) : Option Score :=
     | _, _ => none) (some Score.zero)
 
 def partialFor (E : Env) (source trimmed : Str) (srcTokens : List Str) (re : RE) (value : Bool) : Option (List ER) :=
-  (getMatches E re trimmed).foldl (fun acc m =>
+  (getMatches E re trimmed).foldl (fun acc am =>
+    let m := am.2
     match acc with
     | none => none
     | some out =>
@@ -142,7 +197,7 @@ def partialFor (E : Env) (source trimmed : Str) (srcTokens : List Str) (re : RE)
       | none => none
       | some top =>
         if top.gt Score.zero then
-          match findFrom trimmed m 0 with
+          match (if E.useMatchOffset then some am.1 else findFrom trimmed m 0) with
           | none => none            -- ValueError from `.index`
           | some start =>
             some (out ++ [⟨start, m.length, strip E.isSpace (sliceI source start (start + m.length)), value, top⟩])
